@@ -1430,7 +1430,17 @@ def _run_unsup(case, ck, info):
             for txt, fn in (("%s + %s" % (nm, bn), lambda: X + b),
                             ("%s + %s" % (bn, nm), lambda: b + X),
                             ("%s * %s" % (nm, bn), lambda: X * b),
-                            ("%s * %s" % (bn, nm), lambda: b * X)):
+                            ("%s * %s" % (bn, nm), lambda: b * X),
+                            ("%s - %s" % (nm, bn), lambda: X - b),
+                            ("%s / %s" % (nm, bn), lambda: X / b),
+                            ("%s ** %s" % (nm, bn), lambda: X ** b),
+                            ("%s ** %s" % (bn, nm), lambda: b ** X),
+                            ("np.add(%s, %s)" % (nm, bn),
+                             lambda: np.add(X, b)),
+                            ("np.multiply(%s, %s)" % (bn, nm),
+                             lambda: np.multiply(b, X)),
+                            ("np.power(%s, %s)" % (nm, bn),
+                             lambda: np.power(X, b))):
                 try:
                     r = fn()
                     ck.trans += 1
